@@ -232,6 +232,15 @@ func (c *FsCase) encode() error {
 		hh := *h
 		hh.Format = tar.FormatPAX
 		if err := tw.WriteHeader(&hh); err != nil {
+			// archive/tar's writer refuses some names a hostile archive can still carry (a non-directory
+			// whose name ends in "/"): write the entry under a stand-in name and patch the header block
+			if raw, ok := rawNameEntry(&hh, c.Bodies[i]); ok {
+				if err := tw.Flush(); err != nil {
+					return err
+				}
+				buf.Write(raw)
+				continue
+			}
 			return fmt.Errorf("write header %q: %w", h.Name, err)
 		}
 		if hh.Typeflag == tar.TypeReg && len(c.Bodies[i]) > 0 {
@@ -245,6 +254,56 @@ func (c *FsCase) encode() error {
 	}
 	c.Archive = buf.Bytes()
 	return c.parse()
+}
+
+// rawNameEntry encodes one entry whose name archive/tar's writer will not accept: the entry is written
+// under a stand-in of the same length and the name field and checksum of its header block are patched.
+func rawNameEntry(h *tar.Header, body string) ([]byte, bool) {
+	if len(h.Name) == 0 || len(h.Name) > 99 {
+		return nil, false
+	}
+	for i := 0; i < len(h.Name); i++ {
+		if h.Name[i] >= 0x80 || h.Name[i] == 0 {
+			return nil, false
+		}
+	}
+	hh := *h
+	hh.Name = strings.Repeat("x", len(h.Name))
+	var b bytes.Buffer
+	tw := tar.NewWriter(&b)
+	if err := tw.WriteHeader(&hh); err != nil {
+		return nil, false
+	}
+	if hh.Typeflag == tar.TypeReg && len(body) > 0 {
+		if _, err := tw.Write([]byte(body)); err != nil {
+			return nil, false
+		}
+	}
+	if err := tw.Flush(); err != nil {
+		return nil, false
+	}
+	raw := b.Bytes()
+	// the entry's own header block is the last block whose name field holds the stand-in
+	pos := -1
+	for off := 0; off+512 <= len(raw); off += 512 {
+		if bytes.HasPrefix(raw[off:], []byte(hh.Name+"\x00")) {
+			pos = off
+		}
+	}
+	if pos < 0 {
+		return nil, false
+	}
+	blk := raw[pos : pos+512]
+	copy(blk, h.Name)
+	for i := 148; i < 156; i++ {
+		blk[i] = ' '
+	}
+	sum := 0
+	for _, x := range blk {
+		sum += int(x)
+	}
+	copy(blk[148:], fmt.Sprintf("%06o\x00 ", sum))
+	return raw, true
 }
 
 func typName(t byte) string {
